@@ -70,7 +70,7 @@ def cases_for(pid, tier, seed):
         u2 = gen.over(gen.d1q(), ks=(1, 2, 3, 4, 5, 6),
                       nary3=[(gen.X, gen.Y, gen.C[1]), (gen.C[0], gen.X, gen.Y), (gen.X, gen.X, gen.X), (gen.X, gen.C[0], gen.Y)],
                       nary4=[(gen.X, gen.Y, gen.X, gen.C[2])])
-        trees = gen.dedup(gen.d1q() + (rnd.sample(u2, 3500) if quick else u2) + gen.towers(3 if quick else 4) + gen.products())
+        trees = gen.dedup(gen.d1q() + (rnd.sample(u2, 3500) if quick else rnd.sample(u2, min(len(u2), 9000))) + gen.towers(3 if quick else 4) + gen.products())
         if not quick:
             trees = gen.dedup(trees + gen.d1("thorough"))
         for t in trees:
@@ -86,7 +86,7 @@ def cases_for(pid, tier, seed):
         for t in rnd.sample(trees, 400 if quick else 3000):
             if J.size(t) >= 4:
                 add(t, share=True)
-        for t in gen.random_trees(seed * 11 + 1, 800 if quick else 30000, depth=3):
+        for t in gen.random_trees(seed * 11 + 1, 800 if quick else 8000, depth=3):
             add(t)
         for t in gen.random_trees(seed * 11 + 5, 150 if quick else 3000, depth=4, names=("x", "y", "z")):
             add(t, pts=rnd.sample(gen.grid(J.variables(t), G), min(6, len(G) ** len(J.variables(t)))))
@@ -126,9 +126,9 @@ def cases_for(pid, tier, seed):
             add(t, pts=gen.grid(J.variables(t), [gen.q(-3), gen.q(2)]))
             cases[-1]["early"] = True
         u2 = gen.over(gen.d1q(), ks=(1, 2, 3, 4), bases=[gen.E_, gen.q(2)], exp_bases=[gen.E_, gen.q(1)])
-        for t in (rnd.sample(u2, 1200) if quick else u2):
+        for t in (rnd.sample(u2, 1200) if quick else rnd.sample(u2, min(len(u2), 6000))):
             add(t)
-        for t in gen.random_trees(seed * 11 + 3, 500 if quick else 20000, depth=3, consts=[-1, 0, 1, 2, gen.H]):
+        for t in gen.random_trees(seed * 11 + 3, 500 if quick else 6000, depth=3, consts=[-1, 0, 1, 2, gen.H]):
             add(t)
     return cases
 
